@@ -50,6 +50,12 @@ def parse_mir(path):
             if line.startswith("fn ") or line.startswith("const ") or line.startswith("static "):
                 if not line.startswith("fn "):
                     cur = None
+                    cm = re.match(r"const (.*promoted\[\d+\]): (.*) = \{$", line.rstrip("\n"))
+                    if cm:
+                        cur = Fn("const:" + cm.group(1), line.rstrip("\n"))
+                        cur.local_types[0] = cm.group(2)
+                        fns[cur.name] = cur
+                        bb = None
                     continue
                 header = line.rstrip("\n")
                 m = re.match(r"fn (.*?)\((.*)\) -> (.*) \{$", header)
